@@ -12,13 +12,15 @@ namespace GceTcb.VF
 open GceTcb GceTcb.Endorse GceTcb.Manifest GceTcb.Commit
 
 /-- With dry-run no workspace is created, no file is read, written or re-moded, nothing is
-    committed or destroyed, whatever the other flags: the only call a VersionControl sees is
-    Result(nil, path) — with no commit handed over. -/
+    committed or destroyed, whatever the other flags: the only calls a VersionControl sees are
+    Result(nil, path) — with no commit handed over — and, when the candidate name is refused
+    (`fix: refuse candidate names …`: the dry run then fails like the real one), the RetriableError
+    query about that refusal. -/
 theorem C15_dry_run_pure (P : Prims) (T : Tables) (c : Ctx) (keys : Option Keys) (ts : Int × Nat)
     (fl : Flags) (vcs : Option (List Attempt)) (vcss : List (List Attempt))
     (hd : fl.cfg.dryRun = true) :
     ∀ i ev, Eff.vcs i ev ∈ (virtualFirmware false P T c keys ts fl vcs vcss).effects →
-      ev.kind = .result ∧ ev.ok = false := by
+      (ev.kind = .result ∧ ev.ok = false) ∨ ev.kind = .retriable := by
   intro i ev h
   unfold virtualFirmware at h
   cases hg : goldenMeasurement P T c with
@@ -41,9 +43,9 @@ theorem C15_dry_run_pure (P : Prims) (T : Tables) (c : Ctx) (keys : Option Keys)
           simp only at h
           rcases List.mem_append.mp h with h | h
           · exact absurd rfl ((hk _ h).1 i ev)
-          · obtain ⟨i', ev', he, h1, h2⟩ := (commitAll_dry fl.cfg _ fl.budget hd _).1 _ h
+          · obtain ⟨i', ev', he, h1⟩ := (commitAll_dry fl.cfg _ fl.budget hd _).1 _ h
             cases he
-            exact ⟨h1, h2⟩
+            exact h1
 
 /-- With measurement-only nothing but standard output is touched: no CertificateAuthority call, no
     Signer call, no VersionControl or workspace call — with or without dry-run, keys, back ends. -/
@@ -153,13 +155,15 @@ theorem C15_no_panic (P : Prims) (T : Tables) (c : Ctx) (keys : Option Keys) (ts
           | err => rfl
           | panic => exact absurd hr hc
 
-/-- A dry run completes: when measuring and signing succeed it returns success, for every set of
-    back ends (their behaviour is irrelevant; each only needs to exist). -/
+/-- A dry run completes: when measuring and signing succeed and the candidate name is one the real run
+    accepts (or the run is a snapshot, which uses no candidate name) it returns success, for every set
+    of back ends (their behaviour is irrelevant; each only needs to exist). -/
 theorem C15_dry_run_completes (P : Prims) (T : Tables) (c : Ctx) (keys : Option Keys) (ts : Int × Nat)
     (fl : Flags) (vcs : Option (List Attempt)) (vcss : List (List Attempt)) (g d : Golden) (sig : Bytes)
     (hd : fl.cfg.dryRun = true) (hm : fl.measurementOnly = false)
     (hg : goldenMeasurement P T c = .ok g) (hs : signDoc keys ts g = .ok (d, sig))
-    (hne : ∀ x ∈ effectiveVcss vcs vcss, x.2 ≠ []) :
+    (hne : ∀ x ∈ effectiveVcss vcs vcss, x.2 ≠ [])
+    (hn : fl.cfg.snapshot = true ∨ nameOk fl.cfg.cand = true) :
     (virtualFirmware false P T c keys ts fl vcs vcss).result = .ok () := by
   unfold virtualFirmware
   rw [hg]
@@ -171,7 +175,7 @@ theorem C15_dry_run_completes (P : Prims) (T : Tables) (c : Ctx) (keys : Option 
     simp only at hs
     subst hs
     simp only
-    rw [(commitAll_dry fl.cfg (newEntry P c ts fl.cfg) fl.budget hd _).2 hne]
+    rw [(commitAll_dry fl.cfg (newEntry P c ts fl.cfg) fl.budget hd _).2 hne hn]
 
 /-- The defect the fix removes (D9), stated on the model of the code before the fix: every dry run
     that gets as far as committing — measuring and signing succeed, at least one back end is
